@@ -10,7 +10,8 @@ import time
 from .core import Checker, Obligation, Repo
 
 VERIF = pathlib.Path(__file__).resolve().parent.parent
-EVIDENCE = VERIF / 'evidence'
+# development runs against scratch copies (self-test, seeded changes) may redirect their evidence away from /verif/evidence
+EVIDENCE = pathlib.Path(os.environ.get('CIRBO_VERIF_EVIDENCE') or (VERIF / 'evidence'))
 KNOWN = VERIF / 'known_findings.json'
 
 
@@ -42,7 +43,7 @@ def finish(ck: Checker, t0: float, seed: int, extra_cov=None) -> int:
         hit = next((e for e in known if _matches(e, ck.prop, o)), None)
         (listed if hit else unlisted).append((o, hit))
 
-    EVIDENCE.mkdir(exist_ok=True)
+    EVIDENCE.mkdir(parents=True, exist_ok=True)
     replay_dir = EVIDENCE / 'replay'
     replays = []
     if unlisted:
